@@ -16,6 +16,11 @@ def cases(rng, quick, gr):
         except Exception:  # noqa: BLE001
             continue
         yield {"tag": "script", "text": text}
+    # tdm programs (p-arrays by name, look-alike names by value)
+    from props.c15 import tdm_script
+    for i in range(60 if quick else 2000):
+        text, _ = tdm_script(rng, with_params=(i % 4 == 0), with_loop=(i % 3 == 0))
+        yield {"tag": "tdm", "text": text}
     # statement forms x bracket styles x argument shapes (small exhaustive matrix)
     hdr = "name m\nversion 1.0\n"
     forms = []
